@@ -43,7 +43,9 @@ CLAIMED['C20'] = dict(
 SCHED_NOTE = ('Coq kernel; hand-written model Sched/*.v of treadmill.scheduler tied by per-operation digest '
               'correspondence on generated histories (E-cell); set.pop() choices fed from the implementation; exact '
               'rationals for utilisation with the x+eps case split; virtual clock; integer vectors of dimension 3; '
-              'SpreadStrategy only.')
+              'SpreadStrategy only. Loader/Master glue in front of the scheduler: oracle-only master-level stage '
+              '(harness/mprobe.py: every cycle of the real Master on E-master histories is recorded as E-cell records one '
+              'and judged by the same oracle, against the attributes DECLARED in the store, parsed by the harness itself).')
 CLAIMED['C06'] = dict(
     engine='E-cell',
     text='Rocq theorems for every allocation tree (any depth) and population: C06_perm/C06_each_once (each instance '
